@@ -12,6 +12,8 @@
    declaration follows from the source text is C01's second layer / C08.
 
    Definitions only. *)
+From RecordUpdate Require Import RecordSet.
+Import RecordSetNotations.
 From DG Require Import Base.Util Base.Sexp Model.Graph.
 
 (* ---------- structured errors ---------- *)
@@ -41,6 +43,8 @@ Inductive bslot :=
 Inductive sclass := SUrl | SNode | SBad.        (* parse_load_specifier_kind *)
 
 Record wmod := {
+  wm_hash_raw : N;                  (* SHA-256 of the bytes the loader serves (interned) *)
+  wm_hash_text : N;                 (* SHA-256 of the decoded source text (what visit hands to the locker) *)
   wm_media : media;                 (* from specifier / content-type header *)
   wm_parse_ok : bool;               (* the analyzer (or wasm parser) accepts the source *)
   wm_kind : mkind;                  (* MkJs or MkWasm when accepted as code *)
@@ -56,7 +60,10 @@ Inductive wresp :=
 | WModule (final : spec) (m : wmod).
 
 Record world := {
-  w_resp : list (spec * wresp);          (* absent = missing *)
+  w_resp : list (spec * wresp);          (* answers with CacheSetting::Use; absent = missing *)
+  w_resp_reload : list (spec * wresp);   (* answers with CacheSetting::Reload where they differ *)
+  w_http : list spec;                    (* specifiers with scheme http or https *)
+  w_lock : option (list (spec * N));     (* the lockfile's remote checksums; None = no locker *)
   w_class : list (spec * sclass);        (* absent = SUrl *)
   w_file : list spec;                    (* specifiers with scheme file *)
   w_max_redirects : nat
@@ -64,6 +71,8 @@ Record world := {
 
 Definition resp_of (W : world) (s : spec) : wresp :=
   match lookup s (w_resp W) with Some r => r | None => WMissing end.
+Definition resp_reload_of (W : world) (s : spec) : wresp :=
+  match lookup s (w_resp_reload W) with Some r => r | None => resp_of W s end.
 Definition class_of (W : world) (s : spec) : sclass :=
   match lookup s (w_class W) with Some c => c | None => SUrl end.
 
@@ -82,6 +91,7 @@ Record pitem := {
   pi_range : option N;
   pi_count : nat;
   pi_attr : N;
+  pi_checksum : option N;        (* lockfile checksum of the requested specifier, read at queue time *)
   pi_asset : bool;
   pi_dyn : bool;
   pi_root : bool
@@ -90,7 +100,10 @@ Record pitem := {
 Record branch := { br_range : N; br_attr : N; br_asset : bool }.
 Record deferred := { df_range : option N; df_attr : N; df_dyn : bool; df_root : bool }.
 
-Record bstate := {
+(* one loader call: specifier, as asset (ensure_cached), with CacheSetting::Reload, presented checksum *)
+Record lcall := { lc_spec : spec; lc_asset : bool; lc_reload : bool; lc_checksum : option N }.
+
+Record bstate := mk_bstate {
   st_slots : list (spec * bslot);
   st_redirects : list (spec * spec);
   st_has_node : bool;
@@ -99,8 +112,14 @@ Record bstate := {
   st_deferred : list (spec * deferred);       (* IndexMap *)
   st_in_dyn : bool;
   st_resolved_roots : list spec;
-  st_loads : list (spec * bool)               (* loader calls issued (specifier, as asset), newest first *)
+  st_calls : list lcall;                      (* loader calls, newest first *)
+  st_lock : option (list (spec * N));         (* locker: remote checksums (lockfile + recorded); None = no locker *)
+  st_lock_sets : list (spec * N)              (* set_remote_checksum calls, newest first *)
 }.
+
+#[export] Instance eta_bstate : Settable _ :=
+  settable! mk_bstate <st_slots; st_redirects; st_has_node; st_pending; st_dyn; st_deferred; st_in_dyn;
+                       st_resolved_roots; st_calls; st_lock; st_lock_sets>.
 
 Fixpoint set_assoc {V} (k : N) (v : V) (l : list (N * V)) : list (N * V) :=
   match l with
@@ -115,12 +134,8 @@ Fixpoint remove_assoc {V} (k : N) (l : list (N * V)) : list (N * V) :=
 Definition or_insert {V} (k : N) (v : V) (l : list (N * V)) : list (N * V) :=
   match lookup k l with Some _ => l | None => l ++ [(k, v)] end.
 
-Definition with_slots (st : bstate) (sl : list (spec * bslot)) : bstate :=
-  {| st_slots := sl; st_redirects := st_redirects st; st_has_node := st_has_node st;
-     st_pending := st_pending st; st_dyn := st_dyn st; st_deferred := st_deferred st;
-     st_in_dyn := st_in_dyn st; st_resolved_roots := st_resolved_roots st; st_loads := st_loads st |}.
 Definition set_slot (st : bstate) (s : spec) (v : bslot) : bstate :=
-  with_slots st (set_assoc s v (st_slots st)).
+  st <| st_slots := set_assoc s v (st_slots st) |>.
 
 (* add_redirect: drop a pending slot of the requested specifier; first redirect wins *)
 Definition check_specifier (st : bstate) (requested s : spec) : bstate :=
@@ -129,10 +144,7 @@ Definition check_specifier (st : bstate) (requested s : spec) : bstate :=
     let slots' := match lookup requested (st_slots st) with
                   | Some (BPending _) => remove_assoc requested (st_slots st)
                   | _ => st_slots st end in
-    {| st_slots := slots'; st_redirects := or_insert requested s (st_redirects st);
-       st_has_node := st_has_node st; st_pending := st_pending st; st_dyn := st_dyn st;
-       st_deferred := st_deferred st; st_in_dyn := st_in_dyn st;
-       st_resolved_roots := st_resolved_roots st; st_loads := st_loads st |}.
+    st <| st_slots := slots' |> <| st_redirects := or_insert requested s (st_redirects st) |>.
 
 Definition attr_allowed (o : bopts) (attr : N) : bool :=
   match attr with
@@ -146,6 +158,18 @@ Definition node_module (s : spec) : module :=
   {| m_kind := MkNode; m_spec := s; m_media := MJavaScript; m_deps := []; m_types_dep := None;
      m_fc_deps := None; m_dts := false |}.
 
+Definition lock_get (st : bstate) (s : spec) : option N :=
+  match st_lock st with Some l => lookup s l | None => None end.
+
+(* load_pending_module: the pending slot, the lockfile checksum of the requested specifier, the queued load *)
+Definition queue_load (st : bstate) (s : spec) (range : option N) (asset in_dyn root : bool)
+           (attr : N) (count : nat) : bstate :=
+  (set_slot st s (BPending asset))
+    <| st_pending := st_pending st ++
+         [{| pi_spec := s; pi_range := range; pi_count := count; pi_attr := attr;
+             pi_checksum := lock_get st s;
+             pi_asset := asset; pi_dyn := in_dyn; pi_root := root |}] |>.
+
 (* load_with_redirect_count *)
 Definition load (W : world) (o : bopts) (st : bstate) (spec0 : spec) (range : option N)
            (asset in_dyn root : bool) (attr : N) (count : nat) : bstate :=
@@ -155,20 +179,9 @@ Definition load (W : world) (o : bopts) (st : bstate) (spec0 : spec) (range : op
   else
     let proceed :=
       match class_of W s with
-      | SNode =>
-          let st' := set_slot st s (BMod (node_module s)) in
-          {| st_slots := st_slots st'; st_redirects := st_redirects st'; st_has_node := true;
-             st_pending := st_pending st'; st_dyn := st_dyn st'; st_deferred := st_deferred st';
-             st_in_dyn := st_in_dyn st'; st_resolved_roots := st_resolved_roots st'; st_loads := st_loads st' |}
+      | SNode => (set_slot st s (BMod (node_module s))) <| st_has_node := true |>
       | SBad => set_slot st s (BErr (BBadSpecifier s range))
-      | SUrl =>
-          let st' := set_slot st s (BPending asset) in
-          {| st_slots := st_slots st'; st_redirects := st_redirects st'; st_has_node := st_has_node st';
-             st_pending := st_pending st' ++
-               [{| pi_spec := s; pi_range := range; pi_count := count; pi_attr := attr;
-                   pi_asset := asset; pi_dyn := in_dyn; pi_root := root |}];
-             st_dyn := st_dyn st'; st_deferred := st_deferred st';
-             st_in_dyn := st_in_dyn st'; st_resolved_roots := st_resolved_roots st'; st_loads := st_loads st' |}
+      | SUrl => queue_load st s range asset in_dyn root attr count
       end in
     match lookup s (st_slots st) with
     | Some sl =>
@@ -177,11 +190,8 @@ Definition load (W : world) (o : bopts) (st : bstate) (spec0 : spec) (range : op
         else
           let defer := match sl with BPending true => negb asset | _ => false end in
           if defer then
-            {| st_slots := st_slots st; st_redirects := st_redirects st; st_has_node := st_has_node st;
-               st_pending := st_pending st; st_dyn := st_dyn st;
-               st_deferred := or_insert s {| df_range := range; df_attr := attr; df_dyn := in_dyn; df_root := root |}
-                                        (st_deferred st);
-               st_in_dyn := st_in_dyn st; st_resolved_roots := st_resolved_roots st; st_loads := st_loads st |}
+            st <| st_deferred := or_insert s {| df_range := range; df_attr := attr; df_dyn := in_dyn; df_root := root |}
+                                           (st_deferred st) |>
           else st
     | None => proceed
     end.
@@ -223,33 +233,60 @@ Inductive presult :=
 | PErr (e : berr)
 | PRedirect (to : spec)
 | PExternal (final : spec) (was_asset : bool)
-| PJson (final : spec) (media : media)
+| PJson (final : spec) (wm : wmod)
 | PCode (final : spec) (wm : wmod).
 
-Definition try_load (W : world) (it : pitem) : presult :=
+(* what the loader returns for one call: the world's answer, except that served
+   content whose hash differs from the presented checksum is rejected *)
+Inductive lresult := LResp (r : wresp) | LChecksumError.
+
+Definition loader_call (W : world) (s : spec) (reload : bool) (checksum : option N) : lresult :=
+  let r := if reload then resp_reload_of W s else resp_of W s in
+  match r, checksum with
+  | WModule _ wm, Some c => if N.eqb c (wm_hash_raw wm) then LResp r else LChecksumError
+  | _, _ => LResp r
+  end.
+
+Definition module_result (W : world) (it : pitem) (final : spec) (wm : wmod) : presult :=
+  match accept W final wm (pi_attr it) (pi_range it) (pi_root it) (pi_dyn it) with
+  | AccJson => PJson final wm
+  | AccCode => PCode final wm
+  | AccErr e => PErr e
+  end.
+
+(* returns the result and the loader calls made (first call first) *)
+Definition try_load (W : world) (it : pitem) : presult * list lcall :=
   let s := pi_spec it in
-  match resp_of W s with
-  | WMissing => PErr (BMissing s (pi_range it))
-  | WError => PErr (BLoad s (pi_range it) 0)
-  | WRedirect to =>
-      if Nat.leb (w_max_redirects W) (pi_count it) || N.eqb to s
-      then PErr (BLoad s (pi_range it) 1)
-      else PRedirect to
-  | WExternal final => if pi_asset it then PExternal s true else PExternal final false
-  | WModule final wm =>
-      if pi_asset it then PExternal s true
-      else match accept W final wm (pi_attr it) (pi_range it) (pi_root it) (pi_dyn it) with
-           | AccJson => PJson final MJson
-           | AccCode => PCode final wm
-           | AccErr e => PErr e
-           end
+  let c := pi_checksum it in
+  let call1 := {| lc_spec := s; lc_asset := pi_asset it; lc_reload := false; lc_checksum := c |} in
+  let call2 := {| lc_spec := s; lc_asset := pi_asset it; lc_reload := true; lc_checksum := c |} in
+  let redirect to :=
+    match c with
+    | Some _ => PErr (BLoad s (pi_range it) 2)              (* checksummed URL must not redirect *)
+    | None => if Nat.leb (w_max_redirects W) (pi_count it) || N.eqb to s
+              then PErr (BLoad s (pi_range it) 1)
+              else PRedirect to
+    end in
+  match loader_call W s false c with
+  | LResp WMissing => (PErr (BMissing s (pi_range it)), [call1])
+  | LResp WError => (PErr (BLoad s (pi_range it) 0), [call1])
+  | LResp (WRedirect to) => (redirect to, [call1])
+  | LResp (WExternal final) => (if pi_asset it then PExternal s true else PExternal final false, [call1])
+  | LResp (WModule final wm) =>
+      (if pi_asset it then PExternal s true else module_result W it final wm, [call1])
+  | LChecksumError =>
+      (* one cache-busting retry (non-registry URLs) *)
+      match loader_call W s true c with
+      | LResp (WModule final wm) =>
+          (if pi_asset it then PExternal s true else module_result W it final wm, [call1; call2])
+      | LResp (WExternal _) =>
+          (if pi_asset it then PExternal s true else PErr (BLoad s (pi_range it) 3), [call1; call2])
+      | _ => (PErr (BLoad s (pi_range it) 3), [call1; call2])      (* integrity error *)
+      end
   end.
 
 (* ---------- visit_module_dependencies ---------- *)
-Definition with_dyn (st : bstate) (d : list (spec * branch)) : bstate :=
-  {| st_slots := st_slots st; st_redirects := st_redirects st; st_has_node := st_has_node st;
-     st_pending := st_pending st; st_dyn := d; st_deferred := st_deferred st;
-     st_in_dyn := st_in_dyn st; st_resolved_roots := st_resolved_roots st; st_loads := st_loads st |}.
+Definition with_dyn (st : bstate) (d : list (spec * branch)) : bstate := st <| st_dyn := d |>.
 
 Definition is_rnone (r : res) : bool := match r with RNone => true | _ => false end.
 
@@ -331,23 +368,32 @@ Definition visit_module (W : world) (o : bopts) (st : bstate) (final : spec) (wm
   end.
 
 Definition add_resolved_root (st : bstate) (s : spec) : bstate :=
-  {| st_slots := st_slots st; st_redirects := st_redirects st; st_has_node := st_has_node st;
-     st_pending := st_pending st; st_dyn := st_dyn st; st_deferred := st_deferred st;
-     st_in_dyn := st_in_dyn st;
-     st_resolved_roots := if mem s (st_resolved_roots st) then st_resolved_roots st else s :: st_resolved_roots st;
-     st_loads := st_loads st |}.
+  st <| st_resolved_roots := if mem s (st_resolved_roots st) then st_resolved_roots st
+                             else s :: st_resolved_roots st |>.
 
 Definition json_module (s : spec) : module :=
   {| m_kind := MkJson; m_spec := s; m_media := MJson; m_deps := []; m_types_dep := None;
      m_fc_deps := None; m_dts := false |}.
 
+Definition is_declaration (m : media) : bool :=
+  match m with MDts | MDmts | MDcts => true | _ => false end.
+
+(* visit(): hand the checksum of a new remote module to the locker *)
+Definition record_checksum (W : world) (st : bstate) (final : spec) (media : media) (wm : wmod) : bstate :=
+  match st_lock st with
+  | Some l =>
+      if negb (is_declaration media) && mem final (w_http W) && negb (has_key final l)
+      then st <| st_lock := Some (l ++ [(final, wm_hash_text wm)]) |>
+              <| st_lock_sets := (final, wm_hash_text wm) :: st_lock_sets st |>
+      else st
+  | None => st
+  end.
+
 (* one completed load: the body of resolve_pending's `match pending.next()` *)
 Definition process (W : world) (o : bopts) (st : bstate) (it : pitem) : bstate :=
-  let st := {| st_slots := st_slots st; st_redirects := st_redirects st; st_has_node := st_has_node st;
-               st_pending := st_pending st; st_dyn := st_dyn st; st_deferred := st_deferred st;
-               st_in_dyn := st_in_dyn st; st_resolved_roots := st_resolved_roots st;
-               st_loads := (pi_spec it, pi_asset it) :: st_loads st |} in
-  match try_load W it with
+  let '(res, calls) := try_load W it in
+  let st := st <| st_calls := rev calls ++ st_calls st |> in
+  match res with
   | PErr e =>
       let st1 := check_specifier st (pi_spec it) (berr_spec e) in
       set_slot st1 (berr_spec e) (BErr e)
@@ -362,15 +408,20 @@ Definition process (W : world) (o : bopts) (st : bstate) (it : pitem) : bstate :
       | Some _ => st2
       | None => set_slot st2 final (BExternal was_asset)
       end
-  | PJson final _ =>
+  | PJson final wm =>
       let st1 := check_specifier st (pi_spec it) final in
       let st2 := if pi_root it then add_resolved_root st1 final else st1 in
-      set_slot st2 final (BMod (json_module final))
+      let st3 := record_checksum W st2 final MJson wm in
+      set_slot st3 final (BMod (json_module final))
   | PCode final wm =>
       let st1 := check_specifier st (pi_spec it) final in
       let st2 := if pi_root it then add_resolved_root st1 final else st1 in
-      let '(st3, m) := visit_module W o st2 final wm in
-      set_slot st3 final (BMod m)
+      let media := match wm_kind wm with
+                   | MkWasm => MWasm
+                   | _ => match wm_media wm with MUnknown => MJavaScript | m => m end end in
+      let st2' := record_checksum W st2 final media wm in
+      let r := visit_module W o st2' final wm in
+      set_slot (fst r) final (BMod (snd r))
   end.
 
 (* resolve_dynamic_branches *)
@@ -396,31 +447,17 @@ Definition idle (st : bstate) : bool :=
 Definition loop_step (W : world) (o : bopts) (st : bstate) : bstate :=
   let st1 :=
     match st_pending st with
-    | it :: rest =>
-        process W o {| st_slots := st_slots st; st_redirects := st_redirects st; st_has_node := st_has_node st;
-                       st_pending := rest; st_dyn := st_dyn st; st_deferred := st_deferred st;
-                       st_in_dyn := st_in_dyn st; st_resolved_roots := st_resolved_roots st;
-                       st_loads := st_loads st |} it
+    | it :: rest => process W o (st <| st_pending := rest |>) it
     | [] => st
     end in
   match st_pending st1 with
   | _ :: _ => st1
   | [] =>
       match st_deferred st1 with
-      | _ :: _ =>
-          let ds := st_deferred st1 in
-          load_deferred W o {| st_slots := st_slots st1; st_redirects := st_redirects st1;
-                               st_has_node := st_has_node st1; st_pending := []; st_dyn := st_dyn st1;
-                               st_deferred := []; st_in_dyn := st_in_dyn st1;
-                               st_resolved_roots := st_resolved_roots st1; st_loads := st_loads st1 |} ds
+      | _ :: _ => load_deferred W o (st1 <| st_deferred := [] |>) (st_deferred st1)
       | [] =>
           if st_in_dyn st1 then st1
-          else
-            let bs := st_dyn st1 in
-            load_branches W o {| st_slots := st_slots st1; st_redirects := st_redirects st1;
-                                 st_has_node := st_has_node st1; st_pending := []; st_dyn := [];
-                                 st_deferred := []; st_in_dyn := true;
-                                 st_resolved_roots := st_resolved_roots st1; st_loads := st_loads st1 |} bs
+          else load_branches W o (st1 <| st_dyn := [] |> <| st_in_dyn := true |>) (st_dyn st1)
       end
   end.
 
@@ -439,12 +476,13 @@ Record bgraph := {
   bg_redirects : list (spec * spec);
   bg_imports : list (spec * list dep);
   bg_has_node : bool;
-  bg_loads : list (spec * bool)           (* loader calls of the LAST build (specifier, as asset) *)
+  bg_calls : list lcall;                  (* loader calls of the LAST operation, in order *)
+  bg_lock_sets : list (spec * N)          (* set_remote_checksum calls of the LAST operation, in order *)
 }.
 
 Definition empty_bgraph (k : gkind) : bgraph :=
   {| bg_kind := k; bg_roots := []; bg_slots := []; bg_redirects := []; bg_imports := []; bg_has_node := false;
-     bg_loads := [] |}.
+     bg_calls := []; bg_lock_sets := [] |}.
 
 Fixpoint load_roots (W : world) (o : bopts) (st : bstate) (roots : list spec) : bstate :=
   match roots with
@@ -472,24 +510,27 @@ Definition build_fuel (W : world) : nat :=
   (* generous: every specifier can be (re)loaded once per redirect count and twice for assets *)
   (8 + 4 * (length (w_resp W) + 4) * (w_max_redirects W + 3))%nat.
 
+Definition init_state (W : world) (o : bopts) (g : bgraph) : bstate :=
+  {| st_slots := bg_slots g; st_redirects := bg_redirects g; st_has_node := bg_has_node g;
+     st_pending := []; st_dyn := []; st_deferred := [];
+     st_in_dyn := bo_is_dynamic o; st_resolved_roots := []; st_calls := [];
+     st_lock := w_lock W; st_lock_sets := [] |}.
+
+Definition finish (g : bgraph) (roots : list spec) (imports : list (spec * list dep)) (st : bstate) : bgraph :=
+  {| bg_kind := bg_kind g; bg_roots := roots; bg_slots := st_slots st;
+     bg_redirects := st_redirects st; bg_imports := imports;
+     bg_has_node := st_has_node st; bg_calls := rev (st_calls st); bg_lock_sets := rev (st_lock_sets st) |}.
+
 (* Builder::build on graph g (empty or the result of an earlier build) *)
 Definition build (W : world) (o : bopts) (g : bgraph) (roots : list spec) (imports : list (spec * list dep))
   : option bgraph :=
   let new_roots := dedup_keep_first (filter (fun r => negb (mem r (bg_roots g))) roots) in
   let new_imports := filter (fun p => negb (has_key (fst p) (bg_imports g))) imports in
-  let st0 := {| st_slots := bg_slots g; st_redirects := bg_redirects g; st_has_node := bg_has_node g;
-                st_pending := []; st_dyn := []; st_deferred := [];
-                st_in_dyn := bo_is_dynamic o; st_resolved_roots := []; st_loads := [] |} in
-  let st1 := load_roots W o st0 new_roots in
+  let st1 := load_roots W o (init_state W o g) new_roots in
   let st2 := load_imports W o st1 new_imports in
   match resolve_pending (build_fuel W) W o st2 with
   | None => None
-  | Some st =>
-      Some {| bg_kind := bg_kind g; bg_roots := bg_roots g ++ new_roots; bg_slots := st_slots st;
-              bg_redirects := st_redirects st;
-              bg_imports := bg_imports g ++ new_imports;
-              bg_has_node := st_has_node st;
-              bg_loads := st_loads st |}
+  | Some st => Some (finish g (bg_roots g ++ new_roots) (bg_imports g ++ new_imports) st)
   end.
 
 (* ---------- Builder::reload ---------- *)
@@ -501,20 +542,14 @@ Fixpoint reload_specs (W : world) (o : bopts) (st : bstate) (specs : list spec) 
   match specs with
   | [] => st
   | s :: rest =>
-      let st1 := with_slots st (remove_assoc s (st_slots st)) in
+      let st1 := st <| st_slots := remove_assoc s (st_slots st) |> in
       reload_specs W o (load W o st1 s None false (bo_is_dynamic o) true 0 0) rest
   end.
 
 Definition reload (W : world) (o : bopts) (g : bgraph) (specs : list spec) : option bgraph :=
   let resolved := map (resolve (redirect_graph (bg_redirects g))) specs in
-  let st0 := {| st_slots := bg_slots g; st_redirects := bg_redirects g; st_has_node := bg_has_node g;
-                st_pending := []; st_dyn := []; st_deferred := [];
-                st_in_dyn := bo_is_dynamic o; st_resolved_roots := []; st_loads := [] |} in
-  let st1 := reload_specs W o st0 resolved in
+  let st1 := reload_specs W o (init_state W o g) resolved in
   match resolve_pending (build_fuel W) W o st1 with
   | None => None
-  | Some st =>
-      Some {| bg_kind := bg_kind g; bg_roots := bg_roots g; bg_slots := st_slots st;
-              bg_redirects := st_redirects st; bg_imports := bg_imports g;
-              bg_has_node := st_has_node st; bg_loads := st_loads st |}
+  | Some st => Some (finish g (bg_roots g) (bg_imports g) st)
   end.
